@@ -151,11 +151,12 @@ def run_schema(ck, m, rng, n_docs, max_depth):
             except Exception as e:  # noqa: BLE001
                 ck.count("validate_raised")
                 continue
-            ops = [d for d in doc.definitions if isinstance(d, A.OperationDefinitionNode)]
+            ops = [d for d in doc.definitions if isinstance(d, A.OperationDefinitionNode)
+                   and (dg.operation_name is None or (d.name and d.name.value == dg.operation_name))]
             if len(ops) != 1:
                 continue
             try:
-                wdoc = G.enc_doc(doc)
+                wdoc = G.enc_doc(doc, dg.operation_name)
             except G.OutOfFragment as e:
                 ck.count("skipped_out_of_fragment")
                 continue
@@ -222,7 +223,7 @@ def run_schema(ck, m, rng, n_docs, max_depth):
             ck.count("skipped_out_of_fragment")
             continue
         try:
-            r = G.run_impl(schema, it["doc"], it["data"], it["variables"])
+            r = G.run_impl(schema, it["doc"], it["data"], it["variables"], it["dg"].operation_name)
         except Exception as e:  # noqa: BLE001
             r = {"kind": "raised", "messages": [repr(e)]}
         model = G.dec_response(mo)
@@ -277,15 +278,17 @@ def run_schema(ck, m, rng, n_docs, max_depth):
             if deferred:
                 ck.count("deferred_case(null in nullable variable)")
                 continue
-            for p, msg in zip(r["errors"], sorted(r["messages"])):
-                pass
             for p in r["errors"]:
                 why = classify_error(schema, it["data"], p, r["fields"])
+                mc = model.get("causes", {}).get(p)
                 if why is None:
                     ck.violation(kid, f"error at {list(p)} is not attributable to the data graph: "
-                                 + "; ".join(r["messages"][:3]), dict(rep, path=list(p)))
+                                 + "; ".join(r["messages"][:3]), dict(rep, path=list(p), model_cause=mc))
                 else:
                     ck.count("error:" + why)
+                    if mc is not None and mc != why:
+                        ck.violation(kid + ":cause", f"error at {list(p)}: the data graph says {why}, the model {mc}",
+                                     dict(rep, path=list(p)))
             # shape holds on every response, errors or not
             try:
                 shape_wires.append([4] + G.flatten(G.W(100, [], [wschema, it["wdoc"], G.enc_vars(it["variables"]),
